@@ -172,6 +172,13 @@ def run(tier, replay=None):
     validators.run_all(prog, rep, roles_wanted={'Language', 'Script', 'Region', 'Variant'})
     rep.count('bodies analysed', len(analysed))
     rep.floor('serde bodies analysed', len(analysed), 4)
+    # ---- "deserialising the serialised form gives an equal value": the serialised text is the canonical string, so the trip is the identity only on
+    # values with a unique representation per string (typestate of every constructor/mutator, shared with C10/C12) whose text is canonical -
+    # including the subtags that maximize/minimize copy out of the likely-subtags tables (data rules, shared with C05)
+    from . import c10, tables
+    nctor = c10.representation_obligations(rep, cfgs=('K0', 'K2'))
+    rep.floor('constructors analysed', nctor, 5)
+    tables.likely(common.program('K1'), rep)
     rep.explanation = ('Structural necessary conditions read from the MIR of the serde impls (feature serde): serialize = serialize_str(self.to_string()); deserialize hands a visitor that '
                        'overrides only string visits to deserialize_str/string/any; visit_str = parse::<LanguageIdentifier>(input).map_err(custom) on the unchanged input; FromStr = from_bytes. '
                        'Together with C02/C04/C05 (parser, printer, round trip) this gives the stated behaviour; serde\'s own dispatch (JSON escapes, Value path, default visit_* errors) is trusted, not analysed.')
